@@ -32,14 +32,18 @@ REQUIRED_THEOREMS = [
     'C06_composed_blocks_independent', 'C06_composed_joint_law', 'C06_composed_columns_cover',
     'C06_hetero_transform', 'C06_hetero_transform_counterexample', 'C06_hetero_transform_partial',
     'C06_hetero_transform_legacy_counterexample', 'C06_sample_joint_scored',
-    'C06_lognormal_moments', 'C06_truncGauss_moments']
+    'C06_lognormal_moments', 'C06_truncGauss_moments', 'C06_entry_dim_local',
+    'C06_truncGauss_support_all_dims', 'C06_truncGauss_block_law', 'C06_truncGauss_untruncated_counterexample']
 RULE = ('exact replay: (a) the four error models and ReducedErrorModel, n_times 1..6, n_samples None/1..5, '
         'int seed and Generator seed (two consecutive calls on one Generator); (b) elementary population '
         'models (Gaussian / LogNormal centred and not, TruncatedGaussian, Pooled, Heterogeneous) n_dim 1..3, '
         '(flat and (p_per_dim, n_dim) parameter layout), CovariatePopulationModel around each, '
         'ComposedPopulationModel of 1..4 of them (several covariate sub-models with different covariates), '
         'negative / zero scales and wrong parameter counts as modelled error paths, '
-        'ReducedPopulationModel; compute_individual_parameters of the sampled eta; get_mean_and_std. '
+        'ReducedPopulationModel; compute_individual_parameters of the sampled eta; get_mean_and_std; '
+        'every third population case (and the 2- / 3-dimensional distribution checks) with the dimensions '
+        'of one model in DIFFERENT scale regimes (location/scale of order 1, 2..9, 10..40; scales of 0.2 '
+        'and of 60 side by side; truncation active in one dimension and irrelevant in another). '
         'non-trivial = n_times>=2 and n_samples>=2 (error models), n_dim>=2 or >=2 sub-models or a '
         'covariate model (population models); distinct = distinct (class, sizes, seed kind)')
 ASSUMPTIONS = [
@@ -352,6 +356,53 @@ def gen_elem_params(rng, kind, n_dim, n_ids, wide=False):
     return np.concatenate([mu, sd])
 
 
+# scale regimes of ONE dimension (location relative to scale). A caller puts dimensions of different
+# regimes side by side in one multi-dimensional model; every dimension must keep ITS OWN law (Lean:
+# C06_elem_entry, C06_truncGauss_support_all_dims, C06_truncGauss_entry_law). The scales stay >= 0.15 so
+# that the small covariate shifts of `Sub.gen_params` keep them positive.
+REGIMES = {'G': ['unit', 'far', 'large'], 'L': ['unit', 'far', 'neg'], 'T': ['cut', 'mild', 'far']}
+BASE_REGIME = {'G': 'unit', 'L': 'unit', 'T': 'cut'}
+
+
+def regime_dim(rng, fam, regime):
+    """(mu, sd) of one dimension"""
+    if fam == 'T':
+        sd = float(rng.uniform(0.4, 2.0))
+        lo, hi = {'cut': (0.3, 2.0), 'mild': (2.0, 9.0), 'far': (10.5, 40.0)}[regime]
+        return sd * float(rng.uniform(lo, hi)), sd          # truncation active / weak / irrelevant
+    if fam == 'G':
+        if regime == 'unit':
+            return float(rng.uniform(-2.0, 3.0)), float(rng.uniform(0.2, 2.0))
+        if regime == 'far':
+            sd = float(rng.uniform(0.2, 2.0))
+            return float(rng.choice([-1, 1])) * sd * float(rng.uniform(10.5, 40.0)), sd
+        return float(rng.uniform(-200.0, 200.0)), float(rng.uniform(20.0, 60.0))
+    if regime == 'unit':
+        return float(rng.uniform(-0.5, 1.0)), float(rng.uniform(0.15, 0.6))
+    if regime == 'far':
+        sd = float(rng.uniform(0.15, 0.3))
+        return sd * float(rng.uniform(10.5, 20.0)), sd
+    return float(rng.uniform(-3.0, -1.0)), float(rng.uniform(0.15, 0.6))
+
+
+def gen_mixed_params(rng, kind, n_dim, n_ids, first=None):
+    """population parameters (flat layout) whose dimensions are in DIFFERENT regimes: two dimensions get
+    two distinct regimes (`first` among them when given), three dimensions all three, in random order;
+    pooled / heterogeneous values of very different magnitudes. Returns (params, regimes)."""
+    if kind in ('P', 'H'):
+        k = n_dim if kind == 'P' else n_ids * n_dim
+        return 10.0 ** rng.uniform(-2.0, 3.0, k), ['magnitudes'] * n_dim
+    fam = kind[0]
+    regs = REGIMES[fam]
+    order = [regs[int(j)] for j in rng.permutation(len(regs))]
+    if first is not None:
+        order = [first] + [r for r in order if r != first]
+    chosen = [order[d % len(order)] for d in range(n_dim)]
+    chosen = [chosen[int(j)] for j in rng.permutation(n_dim)]
+    ms = [regime_dim(rng, fam, r) for r in chosen]
+    return np.array([m for m, _ in ms] + [sd for _, sd in ms]), chosen
+
+
 class Sub:
     """one sub-model: chi object + the description the Lean model takes"""
 
@@ -376,8 +427,12 @@ class Sub:
     def wire(self):
         return [self.kind, self.n_dim, self.n_cov, [list(p) for p in self.sel]]
 
-    def gen_params(self, rng):
-        p = gen_elem_params(rng, self.kind, self.n_dim, self.n_ids)
+    def gen_params(self, rng, mixed=False):
+        self.regimes = None
+        if mixed:
+            p, self.regimes = gen_mixed_params(rng, self.kind, self.n_dim, self.n_ids)
+        else:
+            p = gen_elem_params(rng, self.kind, self.n_dim, self.n_ids)
         if self.n_cov > 0:
             # small shifts keep scales positive for covariates in [-1, 1]
             p = np.concatenate([p, rng.uniform(-0.04, 0.04, self.n_cov * len(self.sel))])
@@ -608,7 +663,9 @@ def run_pop_case(ctx, chi, rng, i):
     nS = 1 if n is None else n
     if mode == 'elem' and subs[0].kind == 'H' and n == 0:
         nS = 1
-    params = np.concatenate([s.gen_params(rng) for s in subs])
+    # every third case: the dimensions of each sub-model in different scale regimes
+    mixed = rng.random() < 0.34
+    params = np.concatenate([s.gen_params(rng, mixed) for s in subs])
     cls = 'inside'
     r = rng.random()
     if r < 0.07:
@@ -637,7 +694,10 @@ def run_pop_case(ctx, chi, rng, i):
     inp = {'mode': mode, 'subs': [s.wire() for s in subs], 'n_ids': n_ids, 'n_samples': n,
            'parameters': params0, 'covariates': cov_rows, 'seed': seed, 'class': cls}
     nontriv = (mode != 'elem' and (len(subs) >= 2 or n_cov_tot > 0)) or subs[0].n_dim >= 2
-    ctx.case('pop/%s/%s' % (mode, cls), nontrivial=('pop/%s/nS%s/%s' % (label, n, cls)) if nontriv else False,
+    if mixed:
+        inp['regimes'] = [s.regimes for s in subs]
+    ctx.case('pop/%s/%s%s' % (mode, cls, '/mixed-regimes' if mixed else ''),
+             nontrivial=('pop/%s/nS%s/%s%s' % (label, n, cls, '/mixed' if mixed else '')) if nontriv else False,
              sample=inp)
     chi_params = params
     if mode == 'elem' and cls != 'n_params' and rng.random() < 0.3:
@@ -667,6 +727,20 @@ def run_pop_case(ctx, chi, rng, i):
         return
     ctx.spec('C06.shape/pop/' + mode, np.asarray(c).shape == (nS, sum(s.n_dim for s in subs)), inp,
              {'shape': np.asarray(c).shape})
+    if cls == 'inside' and np.asarray(c).shape == (nS, sum(s.n_dim for s in subs)):
+        # supports: every entry of a truncated-Gaussian column is >= 0, of a log-normal column > 0 — in
+        # EVERY dimension, whatever the other dimensions' parameters are
+        col = 0
+        ok, where = True, []
+        for sm in subs:
+            blk = np.asarray(c, float)[:, col:col + sm.n_dim]
+            if (sm.kind == 'T' and not np.all(blk >= 0)) or (sm.kind == 'Lc' and not np.all(blk > 0)):
+                ok = False
+                where.append([col, col + sm.n_dim])
+            col += sm.n_dim
+        if any(sm.kind in ('T', 'Lc') for sm in subs):
+            ctx.spec('C06.support/pop/' + mode, ok, inp,
+                     {'samples': as_rows(c), 'columns_with_entries_outside_the_support': where})
     psi_check(ctx, chi, mode, obj, subs, n_ids, params, params0, cov, cov_rows, c, inp, mode)
     joint_score_check(ctx, chi, mode, obj, subs, params, params0, cov, cov_rows, c, inp)
     # Generator as seed: advanced, not restarted (two consecutive calls)
@@ -699,7 +773,7 @@ def run_reduced_pop(ctx, chi, rng):
     base.set_n_ids(n_ids)
     red = chi.ReducedPopulationModel(base)
     names = red.get_parameter_names()
-    full = np.concatenate([s.gen_params(rng) for s in subs])
+    full = np.concatenate([s.gen_params(rng, rng.random() < 0.34) for s in subs])
     if len(set(names)) != len(names):
         return
     mask = [bool(rng.random() < 0.4) for _ in names]
@@ -777,17 +851,25 @@ def run_moments(ctx, chi, rng, count):
             mus = rng.uniform(-1.0, 3.0, n_dim)
             sig = rng.uniform(0.3, 2.0, n_dim)
             model = chi.TruncatedGaussianModel(n_dim=n_dim)
+        regimes = None
+        if rng.random() < 0.4:
+            # dimensions in different scale regimes side by side
+            pm, regimes = gen_mixed_params(rng, 'Lc' if which == 'ln' else 'T', n_dim, 1)
+            mus, sig = pm[:n_dim].copy(), pm[n_dim:].copy()
         neg = rng.random() < 0.1
         if neg:
             sig[int(rng.integers(n_dim))] *= -1
         params = np.concatenate([mus, sig])
         tag = 'LogNormalModel' if which == 'ln' else 'TruncatedGaussianModel'
         inp = {'model': tag, 'parameters': params}
+        if regimes:
+            inp['regimes'] = regimes
         c = call(lambda: model.get_mean_and_std(params))
         mo = ctx.model('C06.moments', which, list(map(float, mus)), list(map(float, sig)))[0]
         ctx.agree('C06.moments/' + tag, as_rows(c) if not isinstance(c, str) else c, mo, inp, rtol=1e-8)
         ctx.case('moments/%s/%s' % (which, 'neg' if neg else 'inside'),
-                 nontrivial='moments/%s/%d' % (which, n_dim) if n_dim >= 2 else False, sample=inp)
+                 nontrivial='moments/%s/%d/%s' % (which, n_dim, '-'.join(regimes or [])) if n_dim >= 2 else False,
+                 sample=inp)
         if neg or isinstance(c, str):
             continue
         # the property: the reported moments are those of the scored density (quadrature of chi's own ll)
@@ -943,12 +1025,19 @@ def pop_law(ctx, chi, rng, n, reps):
 def pop_law_one(ctx, chi, rng, n, rep, kind):
     if True:
         if True:
-            n_dim = 1 + (rep % 2)
+            # one dimension; three dimensions, one in every scale regime; one dimension; two dimensions in
+            # two different regimes (the base regime and another one)
+            n_dim = [1, 3, 1, 2][rep % 4]
             n_ids = 3
             model = build_elem(chi, kind, n_dim, n_ids)
-            params = gen_elem_params(rng, kind, n_dim, n_ids)
-            if kind == 'T':
-                params[:n_dim] = rng.uniform(0.4, 2.0, n_dim)   # mu/sigma >= ~0.3: mass below mu is visible
+            regimes = None
+            if n_dim >= 2:
+                params, regimes = gen_mixed_params(rng, kind, n_dim, n_ids,
+                                                   first=BASE_REGIME.get(kind[0]) if n_dim == 2 else None)
+            else:
+                params = gen_elem_params(rng, kind, n_dim, n_ids)
+                if kind == 'T':
+                    params[:n_dim] = rng.uniform(0.4, 2.0, n_dim)   # mu/sigma >= ~0.3: mass below mu is visible
             seed = int(rng.integers(0, 2 ** 31))
             small = rep % 4 >= 2
             tag = POP_TAG[kind]
@@ -957,6 +1046,8 @@ def pop_law_one(ctx, chi, rng, n, rep, kind):
             params = np.array(params, float)
             params0 = params.copy()
             inp = {'model': tag, 'n_dim': n_dim, 'parameters': params0, 'n_samples': n, 'seed': seed}
+            if regimes:
+                inp['regimes'] = regimes
             if small:
                 # many small calls (n_samples 2) on ONE Generator
                 g = np.random.default_rng(seed)
@@ -969,7 +1060,8 @@ def pop_law_one(ctx, chi, rng, n, rep, kind):
             n = len(x)
             ctx.spec('C06.arguments_unchanged/' + tag, np.array_equal(params, params0), inp,
                      {'parameters_passed': params0, 'parameters_after_sample': params.copy()})
-            ctx.case('law/pop/' + kind)
+            ctx.case('law/pop/' + kind, nontrivial=('law/pop/%s/%s' % (kind, '-'.join(regimes)))
+                     if regimes and kind not in ('P', 'H') else False)
             if kind == 'P':
                 ok = bool(np.all(x == params0[None, :]))
                 with np.errstate(all='ignore'):
@@ -996,7 +1088,8 @@ def pop_law_one(ctx, chi, rng, n, rep, kind):
                              {'fraction_of_calls_with_equal_rows': same, 'expected': p})
                 return
             mus, sds = params0[:n_dim], params0[n_dim:]
-            ref = np.exp(mus) if kind in ('Lc', 'Ln') else np.abs(mus) + 0.5
+            # a point well inside the support of every dimension (the other dimensions are held there)
+            ref = np.exp(mus) if kind in ('Lc', 'Ln') else (np.abs(mus) + 0.5 if kind == 'T' else mus.copy())
             if kind in ('Gn', 'Ln'):
                 # eta against the density the non-centred log-likelihood scores
                 for d in range(n_dim):
@@ -1010,15 +1103,19 @@ def pop_law_one(ctx, chi, rng, n, rep, kind):
                 for d in range(n_dim):
                     column_law(ctx, tag + '/psi', psi[:, d], twin, params0, d, ref, kind[0] + 'c', mus[d],
                                sds[d], inp)
-                if n_dim == 2:
-                    rho = float(stats.spearmanr(psi[:, 0], psi[:, 1])[0])
-                    ctx.spec('C06.independence/' + tag, abs(rho) <= 6.5 / math.sqrt(n - 1), inp, {'rho': rho})
+                for a in range(n_dim):
+                    for b in range(a):
+                        rho = float(stats.spearmanr(psi[:, b], psi[:, a])[0])
+                        ctx.spec('C06.independence/' + tag, abs(rho) <= 6.5 / math.sqrt(n - 1),
+                                 dict(inp, dims=[b, a]), {'rho': rho})
                 return
             for d in range(n_dim):
                 column_law(ctx, tag, x[:, d], model, params0, d, ref, kind, mus[d], sds[d], inp)
-            if n_dim == 2:
-                rho = float(stats.spearmanr(x[:, 0], x[:, 1])[0])
-                ctx.spec('C06.independence/' + tag, abs(rho) <= 6.5 / math.sqrt(n - 1), inp, {'rho': rho})
+            for a in range(n_dim):
+                for b in range(a):
+                    rho = float(stats.spearmanr(x[:, b], x[:, a])[0])
+                    ctx.spec('C06.independence/' + tag, abs(rho) <= 6.5 / math.sqrt(n - 1),
+                             dict(inp, dims=[b, a]), {'rho': rho})
             if kind in ('Lc', 'T'):
                 ctx.spec('C06.support/' + tag, bool(np.all(x >= 0)) and (kind != 'Lc' or bool(np.all(x > 0))),
                          inp, {'min': float(np.min(x))})
@@ -1353,6 +1450,21 @@ def replay(ctx, data):
               % (len(x), np.mean(x, axis=0), np.std(x, axis=0, ddof=1), np.min(x, axis=0)))
         if hasattr(obj, 'get_mean_and_std'):
             print('chi   : get_mean_and_std', np.asarray(obj.get_mean_and_std(params)).tolist())
+        if kind in ('Gc', 'Lc', 'T') and len(x) >= 1000:
+            n_dim = inp['n_dim']
+            mus, sds = params[:n_dim], params[n_dim:]
+            ref = np.exp(mus) if kind == 'Lc' else (np.abs(mus) + 0.5 if kind == 'T' else mus.copy())
+            ok = True
+            for d in range(n_dim):
+                lo, hi, logsp = elem_range(kind, mus[d], sds[d])
+                r = law_check(x[:, d], pop_logpdf_1d(obj, params, d, ref), lo, hi, log_space=logsp,
+                              normalise=True, var_se=8.0 if logsp else 6.5)
+                okd = r['ks_ok'] and r['var_ok'] and r['mean_ok'] and (kind == 'Gc' or float(np.min(x[:, d])) >= 0)
+                print('dim %d : scored mean %.6g, sd %.6g; KS distance %.4g (threshold %.4g); min %.4g -> %s'
+                      % (d, r['mean'][1], math.sqrt(r['var'][1]), r['ks'], r['ks_thr'], float(np.min(x[:, d])),
+                         'matches' if okd else 'DIFFERS'))
+                ok = ok and okd
+            return 0 if ok else 1
         return 0
     if model in ('LogNormalModel', 'TruncatedGaussianModel') and 'parameters' in inp:
         params = np.array(inp['parameters'], float)
